@@ -8,12 +8,11 @@ top-level actions.
 import threading
 from uuid import uuid4
 from contextlib import contextmanager
-from functools import partial
-from inspect import getcallargs
+from functools import partial, wraps
+from inspect import signature
 from contextvars import ContextVar
 
 from pyrsistent import field, PClass, optional, pmap_field, pvector
-from boltons.funcutils import wraps
 
 from ._message import (
     WrittenMessage,
@@ -931,10 +930,9 @@ def log_call(
             wrapped_function.__module__, wrapped_function.__qualname__
         )
 
-    if include_args is not None:
-        from inspect import signature
+    sig = signature(wrapped_function)
 
-        sig = signature(wrapped_function)
+    if include_args is not None:
         if set(include_args) - set(sig.parameters):
             raise ValueError(
                 (
@@ -944,7 +942,11 @@ def log_call(
 
     @wraps(wrapped_function)
     def logging_wrapper(*args, **kwargs):
-        callargs = getcallargs(wrapped_function, *args, **kwargs)
+        # Bind the arguments the way Python itself would (this raises the
+        # same TypeError a direct call would for an invalid argument list):
+        bound = sig.bind(*args, **kwargs)
+        bound.apply_defaults()
+        callargs = dict(bound.arguments)
 
         # Remove self is it's included:
         if "self" in callargs:
